@@ -26,7 +26,7 @@ KeyPrims == Prims \ {"float32", "float64"}
 (* Tokens                                                                                           *)
 
 \* string literal table: id -> number of characters of the raw text between the quotes (the harness holds the texts)
-StrRawLen == <<5, 4, 11, 6, 6, 0, 11>>
+StrRawLen == <<5, 4, 11, 6, 6, 0, 11, 7, 10, 5>>
 StrIds == 1..Len(StrRawLen)
 
 W(s)       == [k |-> "w", s |-> s]              \* keyword, punctuation or plain identifier
@@ -176,13 +176,13 @@ FileToks(file, f, ch) ==
 
 \* separator classes and their width in characters; "nl" starts a new row
 \*   sp ' '   tab '\t'   cr '\r'   bc '/*c<e-acute>*/' (6 chars)   lc '//c' (then a line break must follow)   lc4 '////x'
-\*   bc2 '/* x **/' (8 chars)   bc3 '/***/' (5 chars)
+\*   bc2 '/* x **/' (8 chars)   bc3 '/***/' (5 chars)   bc4 '/*/ x */' (8 chars: the '/' right after the opening is no end)
 \*   ppskip: a line break, a conditional block that is not selected ('#if NOPE' / a definition / '#endif') and a line break
 \*   ppdef : a line break, '#define ZED' and a line break             (the slice lexer continues in a new source block)
-ClassCols == [sp |-> 1, tab |-> 1, cr |-> 1, bc |-> 6, lc |-> 3, lc4 |-> 5, ws3 |-> 1, bc2 |-> 8, bc3 |-> 5]
+ClassCols == [sp |-> 1, tab |-> 1, cr |-> 1, bc |-> 6, lc |-> 3, lc4 |-> 5, ws3 |-> 1, bc2 |-> 8, bc3 |-> 5, bc4 |-> 8]
 Seps == << <<"sp">>, <<"nl">>, <<"tab">>, <<"cr", "nl">>, <<"sp", "bc", "sp">>, <<"sp", "lc", "nl">>, <<"nl", "sp", "sp">>,
            <<"lc4", "nl", "tab">>, <<"sp">>, <<"nl", "nl", "sp", "sp", "sp", "sp">>, <<"ws3">>, <<"bc">>,
-           <<"ppskip", "sp", "sp", "sp">>, <<"bc2">>, <<"sp", "ppdef", "tab">>, <<"bc3", "sp">> >>
+           <<"ppskip", "sp", "sp", "sp">>, <<"bc2">>, <<"sp", "ppdef", "tab">>, <<"bc3", "sp">>, <<"bc4">> >>
 Adv(cur, cls) == CASE cls = "nl" -> [row |-> cur.row + 1, col |-> 1]
                    [] cls = "ppskip" -> [row |-> cur.row + 4, col |-> 1]
                    [] cls = "ppdef" -> [row |-> cur.row + 2, col |-> 1]
